@@ -10,7 +10,7 @@ import os
 import sys
 
 HERE = os.path.dirname(os.path.dirname(os.path.dirname(os.path.abspath(__file__))))
-sys.path[:0] = ["/repo", HERE, os.path.join(HERE, ".deps")]
+sys.path[:0] = [os.environ.get("VERIF_REPO", "/repo"), HERE, os.path.join(HERE, ".deps")]
 
 import atheris  # noqa: E402
 
